@@ -225,7 +225,20 @@ def checkCalleeP (t : Toggles) (p : Program) : Nat → Key → Kind → Key → 
   | 0, _, _, _, _, _ => throwP .outOfFuel
   | fuel + 1, k, kindK, callee, obs, pedantic => do
     let edgeDirty := (← getS).dirty.contains (k, callee)
-    if !edgeDirty && !pedantic && kindK != .projection then return .noNeed
+    if !edgeDirty && !pedantic && kindK != .projection then
+      if !t.f1p then return .noNeed
+      let now := (← getS).epoch
+      let kc0 ← storedKind callee
+      let frontier : List Key ← match kc0 with
+        | .input | .external => pure []
+        | .firewall => pure [callee]
+        | _ => do pure (← nodeInfoUnchecked callee).tfc
+      let mut trust := true
+      for f in frontier do
+        match (← getNode f) with
+        | some n => if !(n.lastVerified == now && n.pendingBP.isNone) then trust := false
+        | none => trust := false
+      if trust then return .noNeed
     let kc ← storedKind callee
     if kc != .input then
       match (← queryForP t p fuel callee (.query k false pedantic)) with
@@ -302,8 +315,15 @@ def repairQueryP (t : Toggles) (p : Program) : Nat → Key → Caller → MP Uni
             else
               let xn ← nodeInfoUnchecked x
               newTfc := unionSorted xn.tfc newTfc
+        let mut newObs := n.obs
+        if needTfc && t.f1q then
+          newObs := []
+          for (x, o) in n.obs do
+            match (← getNode x) with
+            | some xn => newObs := newObs ++ [(x, { o with tfc := xn.tfc })]
+            | none => newObs := newObs ++ [(x, o)]
         modifyS fun s => { s with dirty := cleaned.foldl (fun d c => removePair (k, c) d) s.dirty }
-        setNode k { n with tfc := newTfc, lastVerified := (← getS).epoch }
+        setNode k { n with tfc := newTfc, obs := newObs, lastVerified := (← getS).epoch }
         publish   -- `clean_query`: submit_write_buffer(tx)
         popComputing k
 
